@@ -150,6 +150,8 @@ def body_states(B, t, q, u):
             mx[k] = float(q[c.my_qDOF][0])
     if mx:
         st["maxwell"] = mx
+    # reference lengths that were defined from the initial configuration keep their meaning
+    st["l_ref"] = {k: float(c.l_ref) for k, c in enumerate(B.laws) if getattr(c, "l_ref", None) is not None}
     return st
 
 
